@@ -566,7 +566,9 @@ where
 {
     let seed = run.seed;
     let names = ["copy", "add_into", "negate", "rotate", "normalize", "lsh", "rsh", "negate_assign", "add_assign", "normalize_assign"];
-    let depth = run.tier.pick(3usize, 4usize);
+    // under the memory monitor (C17, AddressSanitizer build) one level less: the sanitised run is ~5x slower and the
+    // deeper histories are C11's own business
+    let depth = if run.property == "C17" { run.tier.pick(2usize, 3usize) } else { run.tier.pick(3usize, 4usize) };
     let max_size = 3usize;
     let mut cs = vec![];
     // all sequences of (op, size) of the given depth
